@@ -274,6 +274,15 @@ def confirm_native(v):
         elif any(k.startswith('sema_diag_1') and val for k, val in env.items()): text = WARN
         else: text = GOOD
         open(os.path.join(d, 'g.llw'), 'w').write(text)
+        feq = [val for k, val in env.items() if k.startswith('formatted_equals_source')]
+        if feq and text != SYNERR:
+            # the model fixes whether the source already is in canonical format: let the real formatter produce the canonical text
+            subprocess.run([llw, '-f', 'g.llw'], cwd=d, capture_output=True, text=True, timeout=60)
+            canon = open(os.path.join(d, 'g.llw')).read()
+            text = canon if feq[0] else canon.replace('\n', '\n\n', 1) if canon.replace('\n', '\n\n', 1) != canon else ' ' + canon
+            for f in os.listdir(d):
+                if f != 'g.llw': os.remove(os.path.join(d, f))
+            open(os.path.join(d, 'g.llw'), 'w').write(text)
         if not any('create_dir' in str(e) for e in v.get('events', [])): os.makedirs(os.path.join(d, 'out'))
         for k, val in env.items():
             if k.startswith('exists_lexer') and val: open(os.path.join(d, 'lexer.rs'), 'w').write('// mine\n')
@@ -282,6 +291,10 @@ def confirm_native(v):
         for root, ds, fs in os.walk(d):
             for f in fs: before[os.path.relpath(os.path.join(root, f), d)] = open(os.path.join(root, f), 'rb').read()
             for x in ds: before[os.path.relpath(os.path.join(root, x), d) + '/'] = b'<dir>'
+        OLD = 1_000_000_000        # every entry gets an old mtime: a rewrite with identical bytes is still seen
+        for root, ds, fs in os.walk(d):
+            for f in fs + ds: os.utime(os.path.join(root, f), (OLD, OLD))
+        os.utime(d, (OLD, OLD))
         args = [llw] + (['-c'] if flags['check'] else []) + (['-f'] if flags['format'] else []) + (['-g'] if flags['graph'] else []) + (['-s'] if flags['short'] else []) + ['-v'] * flags['verbose'] + ['-o', 'out', 'g.llw']
         pr = subprocess.run(args, cwd=d, capture_output=True, text=True, timeout=60)
         after = {}
@@ -293,6 +306,10 @@ def confirm_native(v):
         for root, ds, fs in os.walk(d):
             pass
         changed = sorted(k for k in after if before.get(k) != after[k]) + sorted(k for k in before if k not in after)
+        for root, ds, fs in os.walk(d):
+            for f in fs:
+                rel = os.path.relpath(os.path.join(root, f), d)
+                if rel not in changed and int(os.stat(os.path.join(root, f)).st_mtime) != OLD: changed.append(rel + ' (rewritten with the same bytes)')
         v['native'] = dict(cmd=' '.join(args[1:]), grammar=text, exit=pr.returncode, files_created_or_changed=changed)
         k = v['kind']
         if k == 'check-mode-writes': return bool(changed)
